@@ -464,7 +464,23 @@ def ListLx (cfg : Block.Cfg) (gas : Nat) : Prop :=
 
 theorem list_lx (cfg : Block.Cfg) (gas : Nat) (hT : TokLx cfg gas) (hL : ListLx cfg gas) : ListLx cfg (gas + 1) := by
   intro fw st ld nm acc r h hacc
+  have hstop : ∀ (items : List Item) (fwEnd : FW) (stEnd : St) (rr : List Item × FW × St), ItemsLx items →
+      (Res.ok ((match items with
+        | .mk inner loose i p l n g :: rest => Item.mk inner (decide (inner.length > 1) && loose) i p l n g :: rest
+        | [] => []).reverse, fwEnd, stEnd) : Res _) = .ok rr → ItemsLx rr.1 := by
+    intro items fwEnd stEnd rr hi he
+    cases he
+    cases items with
+    | nil => simp [ItemsLx]
+    | cons x xs =>
+      cases x
+      simp only [ItemsLx, ItemLx] at hi
+      refine itemsLx_reverse _ ?_
+      simp only [ItemsLx, ItemLx]
+      exact hi
   simp only [readList] at h
+  split at h
+  · exact hstop acc _ _ r hacc h
   split at h
   · cases h
   · rename_i il hil
@@ -492,29 +508,13 @@ theorem list_lx (cfg : Block.Cfg) (gas : Nat) (hT : TokLx cfg gas) (hL : ListLx 
     · cases h
     · rename_i item itemLeader next fw' st' hres
       have hkw := key item itemLeader next fw' st' hres
-      have hstop : ∀ (items : List Item) (fwEnd : FW) (rr : List Item × FW × St), ItemsLx items →
-          (Res.ok ((match items with
-            | .mk inner loose i p l n g :: rest => Item.mk inner (decide (inner.length > 1) && loose) i p l n g :: rest
-            | [] => []).reverse, fwEnd, st') : Res _) = .ok rr → ItemsLx rr.1 := by
-        intro items fwEnd rr hi he
-        cases he
-        cases items with
-        | nil => simp [ItemsLx]
-        | cons x xs =>
-          cases x
-          simp only [ItemsLx, ItemLx] at hi
-          refine itemsLx_reverse _ ?_
-          simp only [ItemsLx, ItemLx]
-          exact hi
       have hacc' : ItemsLx (item :: acc) := ⟨hkw, hacc⟩
       split at h
       · split at h
-        · exact hstop acc _ r hacc h
-        · split at h
-          · exact hstop _ _ r hacc' h
-          · exact hL _ st' _ _ _ r h hacc'
+        · exact hstop _ _ _ r hacc' h
+        · exact hL _ st' _ _ _ r h hacc'
       · split at h
-        · exact hstop _ _ r hacc' h
+        · exact hstop _ _ _ r hacc' h
         · exact hL _ st' _ _ _ r h hacc'
 
 theorem try_lx (cfg : Block.Cfg) (gas : Nat) (hT : TokLx cfg gas) (hL : ListLx cfg gas) (hY : TryLx cfg gas) :
